@@ -178,6 +178,13 @@ pub fn run(toks: &[&str]) -> String {
             "dot" => format!("{}/./{name}", dir.join("gens").display()),
             "dslash" => format!("{}//{name}", dir.join("gens").display()),
             "updown" => format!("{}/../gens/{name}", dir.join("gens").display()),
+            "bslash" => {
+                // a directory whose name contains backslashes (none of them before ',' or '='): the same program under that path
+                let odd = dir.join("gens").join("odd\\dir \\x");
+                std::fs::create_dir_all(&odd).unwrap();
+                if gpath.exists() { let _ = std::fs::copy(&gpath, odd.join(&name)); }
+                format!("{}/{name}", odd.display())
+            }
             _ => gpath.display().to_string(),
         };
         argv.push(format!("--generator={}{}", spelled, args));
@@ -255,11 +262,17 @@ pub fn run(toks: &[&str]) -> String {
 pub fn fileset(toks: &[&str]) -> String {
     let cwd = text_of(toks[0]);
     if std::env::set_current_dir(&cwd).is_err() { return "?cwd".into(); }
-    let mut options = SliceOptions::default();
+    // the options come from the command-line parser, as they do for the binary: every reference after its own -R, the sources after "--"
+    use clap::Parser;
+    let mut argv: Vec<String> = vec!["slicec".into()];
+    let mut sources: Vec<String> = Vec::new();
     for t in &toks[1..] {
         let (k, h) = t.split_once(':').unwrap();
-        if k == "S" { options.sources.push(text_of(h)); } else { options.references.push(text_of(h)); }
+        if k == "S" { sources.push(text_of(h)); } else { argv.push("-R".into()); argv.push(text_of(h)); }
     }
+    argv.push("--".into());
+    argv.extend(sources);
+    let options = match SliceOptions::try_parse_from(&argv) { Ok(o) => o, Err(e) => { let _ = std::env::set_current_dir("/"); return format!("?usage {}", hexs(&e.to_string())); } };
     let state = slicec::compile_from_options(&options);
     let files: Vec<String> = state.files.iter().map(|f| format!("{}:{}:{}", if f.is_source { "S" } else { "R" }, hexs(&f.relative_path), if f.module.is_some() || !f.contents.is_empty() { 1 } else { 0 })).collect();
     let d = state.diagnostics.into_updated(&state.ast, &state.files, &options);
